@@ -62,7 +62,23 @@ func Reach(start Point, target Point, cut *Cut) (bool, []*ssa.BasicBlock) {
 	visited := map[*ssa.BasicBlock]bool{}
 	var queue []*node
 	pushSuccs := func(n *node) {
+		// a branch on a constant takes one side only
+		dead := -1
+		if k := len(n.b.Instrs); k > 0 {
+			if ifi, ok := n.b.Instrs[k-1].(*ssa.If); ok {
+				if cst, ok := ifi.Cond.(*ssa.Const); ok && cst.Value != nil {
+					if cst.Value.ExactString() == "true" {
+						dead = 1
+					} else {
+						dead = 0
+					}
+				}
+			}
+		}
 		for i, s := range n.b.Succs {
+			if i == dead {
+				continue
+			}
 			if cut != nil && cut.Edges[Edge{n.b, i}] {
 				continue
 			}
